@@ -64,7 +64,7 @@ fn to_lines(rows: &[J]) -> Vec<u8> {
     out
 }
 
-fn to_json(j: &J) -> String {
+pub fn to_json(j: &J) -> String {
     match j {
         J::Null => "null".into(),
         J::Bool(b) => format!("{}", b),
